@@ -3,7 +3,8 @@
 cd "$(dirname "$0")/.."
 export CARGO_NET_OFFLINE=true
 python3 gen/gen_kani.py >/dev/null
-cp /repo/Cargo.lock kani/Cargo.lock 2>/dev/null
+mkdir -p .cache; [ -e .cache/repo ] || ln -sfn "${VERIF_REPO:-/repo}" .cache/repo
+cp .cache/repo/Cargo.lock kani/Cargo.lock 2>/dev/null
 mkdir -p .cache/kani-target
 (cd kani && timeout 900 cargo kani --target-dir ../.cache/kani-target --output-format terse --exact --harness gen::k_c17_guard 2>&1 | tail -3)
 (cd kani && cargo build --offline --bin replay --target-dir ../.cache/kani-target-native 2>&1 | tail -1)
